@@ -59,7 +59,8 @@ CellSeq(S) == IF S = {} THEN <<>>
                    << [m |-> RowOf(x.i).m, r |-> RowOf(x.i).r, c |-> x.c + 1, n |-> RowOf(x.i).n, s |-> x.s] >> \o CellSeq(S \ {x})
 Chart == [type |-> typ, desc |-> "", diff |-> "Hard", meter |-> "7", radar |-> "0,0,0,0,0", keys |-> KeysOf(typ),
           nfields |-> 6, cells |-> CellSeq(CellSet), rows |-> rows, widths |-> <<KeysOf(typ)>>, symbols |-> <<"0">>]
-File == [off |-> off, bpms |-> bpms, charts |-> <<Chart>>, junk |-> 0]
+FBpms == [k \in DOMAIN bpms |-> [p |-> bpms[k].p48 * 100, bl |-> bpms[k].bl]]
+File == [off |-> off, bpms |-> FBpms, charts |-> <<Chart>>, junk |-> 0]
 
 DenotationTotal == done =>
     LET f == File ch == Chart IN
@@ -69,10 +70,15 @@ DenotationTotal == done =>
     /\ Cardinality(Long(f, ch, "hold")) = Cardinality({ q \in DOMAIN objs : objs[q].k = "2" })
     /\ Cardinality(Long(f, ch, "roll")) = Cardinality({ q \in DOMAIN objs : objs[q].k = "4" })
     /\ \A d \in Long(f, ch, "hold") \cup Long(f, ch, "roll") : d.n > 0
-TimesIncrease == done => \A k \in 1..Len(bpms)-1 : TStart(bpms, off, k) < TStart(bpms, off, k+1)
+TimesIncrease == done => \A k \in 1..Len(bpms)-1 : TStart(FBpms, off, k) < TStart(FBpms, off, k+1)
 
 RECURSIVE HSum(_)
 HSum(s) == IF s = <<>> THEN 0 ELSE s[1].i * 3 + s[1].c * 5 + s[1].j * 11 + (IF s[1].k \in {"2", "4"} THEN 1 ELSE 0) + HSum(Tail(s))
 Hash == HSum(objs) + Len(bpms) * 7 + bpms[Len(bpms)].p48 + rows[1]
-EmitScn == (Emit /\ done /\ Hash % EmitMod = 0) => PrintT(ToJson([kind |-> "sm", type |-> typ, rows |-> rows, objs |-> objs, bpms |-> bpms, off |-> off]))
+EmitScn == (Emit /\ done /\ Hash % EmitMod = 0) => PrintT(ToJson([kind |-> "sm", type |-> typ, rows |-> rows, objs |-> objs, bpms |-> bpms, off |-> off,
+                             \* the times the spec assigns (used to build the same set in memory for the writer)
+                             times |-> [q \in DOMAIN objs |->
+                                 [h |-> RowTicks(FBpms, off, RowOf(objs[q].i).m - 1, RowOf(objs[q].i).r - 1, RowOf(objs[q].i).n),
+                                  t |-> RowTicks(FBpms, off, RowOf(objs[q].j).m - 1, RowOf(objs[q].j).r - 1, RowOf(objs[q].j).n)]],
+                             starts |-> [k \in DOMAIN bpms |-> TStart(FBpms, off, k)]]))
 =============================================================================
